@@ -16,6 +16,11 @@
 //	         (arrays, maps and their KEYS, errors, captured variables) above the maximum; an operation whose
 //	         result would not fit fails with errors.Is(ErrStringLimit/ErrBytesLimit). CORRESPONDENCE: the Lean
 //	         guard functions on the same lengths.
+//	padding  format calls whose field padding is the last write of the call (left-justified fields, widths literal
+//	         and through '*', flags '-' and '0', %x of an empty string, %.0d of 0) across each boundary, each on
+//	         fresh printers, on printers whose buffers were grown by earlier legal format calls of the program,
+//	         and on printers grown earlier in the process under a larger limit (formatter printers are pooled);
+//	         plus random flag/width/precision/verb combinations. Same oracles as length; CORRESPONDENCE: `bufseq`.
 //	depth    recursion around MaxFrames (errors.Is(ErrStackOverflow) when frames run out; Lean frame machine on
 //	         the measured call/return trace) and operand-stack exhaustion through RunContext (an error, never a
 //	         crash, growth or hang).
@@ -28,6 +33,7 @@ import (
 	"fmt"
 	"math"
 	"os"
+	"runtime"
 	"sort"
 	"strconv"
 	"strings"
@@ -122,6 +128,39 @@ func (r *vmRun) errText() string {
 
 const maxTrace = 400000
 
+// primeLen > 0: the goroutine that runs the VM first leaves pooled formatter printers (formatter.go: ppFree,
+// a sync.Pool) whose buffers have at least this capacity, as earlier format calls of the same process do.
+// Buffer capacity is not observable on a correct tree; a length guard that is only applied when the buffer
+// has to grow is invisible on fresh printers, and which printer a format call gets otherwise depends on the
+// garbage collector (the pool is emptied by it) and on the scheduler (the pool is per P).
+var primeLen int
+
+// primer formats itself through a nested Format call, so that `depth`+1 printers are held at the same time
+// and all go back to the pool with grown buffers (the first one to the P's private slot, the others to its
+// shared list, where other Ps can steal them).
+type primer struct {
+	tengo.ObjectImpl
+	depth, n int
+}
+
+func (p *primer) TypeName() string { return "primer" }
+func (p *primer) String() string {
+	if p.depth == 0 {
+		return strings.Repeat("p", p.n)
+	}
+	s, _ := tengo.Format("%v", &primer{depth: p.depth - 1, n: p.n})
+	return s
+}
+
+func primePool(n int) {
+	s := tengo.MaxStringLen
+	tengo.MaxStringLen = math.MaxInt32
+	defer func() { tengo.MaxStringLen = s }()
+	for i := 0; i < 2; i++ {
+		_, _ = tengo.Format("%v", &primer{depth: 3, n: n})
+	}
+}
+
 func runVM(c *lib.Compiled, maxAllocs int64, wantTrace, wantFrames bool, timeout time.Duration) *vmRun {
 	r := &vmRun{names: map[string]int{}}
 	r.globals = make([]tengo.Object, tengo.GlobalsSize)
@@ -161,6 +200,9 @@ func runVM(c *lib.Compiled, maxAllocs int64, wantTrace, wantFrames bool, timeout
 				r.panicv = fmt.Sprint(p)
 			}
 		}()
+		if primeLen > 0 {
+			primePool(primeLen)
+		}
 		r.err = vm.Run()
 	}()
 	select {
@@ -736,7 +778,7 @@ func genStrProg(r *lib.RNG, L int) string {
 	sv := func() string { return "s" + lib.N(r.Intn(3)) }
 	nonstr := []string{"123", "-4.5", "'c'", "true", "[1, 2]", "{a: 1}", "undefined", "b0", "error(s1)", "1234567890123", "arr", "m", "immutable([s0])"}
 	vals := []string{"12345678", "1.25", "b0", "[s0, s1]", "{k: s0}", "error(s0)", "'x'", "true", "arr", "m", "-9007199254740993", "1e100", "[[s1], {q: s2}]"}
-	fmts := []string{"%s", "%v", "%q", "%x", "%X", "%d", "%5d", "%-6s|", "%08.3f", "%c", "%t", "%10s", "%v%v", "%s-%s", "%5.2s", "% x", "%#x", "%T", "%e", "%08d", "%+d", "%U", "%b", "%o", "%#v", "%6.2f", "%x%x", "%d%%", "%s%%%%", "%z", "%!", "%[2]s%[1]s", "%*d", "%.3s|%c"}
+	fmts := []string{"%s", "%v", "%q", "%x", "%X", "%d", "%5d", "%-6s|", "%08.3f", "%c", "%t", "%10s", "%v%v", "%s-%s", "%5.2s", "% x", "%#x", "%T", "%e", "%08d", "%+d", "%U", "%b", "%o", "%#v", "%6.2f", "%x%x", "%d%%", "%s%%%%", "%z", "%!", "%[2]s%[1]s", "%*d", "%.3s|%c", "%-12d", "%-9s", "%-*s", "%-*v", "%-20v", "%9x", "%.0d"}
 	args := []string{"s0", "s1", "s2", "b0", "12345", "-7", "3.14159", "'z'", "true", "arr", "m", "e", "[s0]", "{k: s1}"}
 	n := 3 + r.Intn(8)
 	for i := 0; i < n; i++ {
@@ -751,8 +793,11 @@ func genStrProg(r *lib.RNG, L int) string {
 			f := lib.Pick(r, fmts)
 			if r.Chance(1, 3) {
 				f = fmt.Sprintf("%%%dv", near()+1)
+				if r.Chance(1, 2) {
+					f = fmt.Sprintf("%%-%dv", near()+1)
+				}
 			}
-			k := strings.Count(f, "%")
+			k := strings.Count(f, "%") + strings.Count(f, "*")
 			as := make([]string, k)
 			for j := range as {
 				as[j] = lib.Pick(r, args)
@@ -832,6 +877,285 @@ func lengthStream(r *lib.RNG) {
 				}
 				o := runLen(src, c, "length-gen", "lib.NewGen program")
 				res.Count("length-gen", fmt.Sprint(L, src), o.run != nil && !o.run.failed())
+			}
+		}
+	}
+}
+
+// ---- padding stream ----
+//
+// Padding is written into the formatter buffer by direct slice assignment (formatter.writePadding), not through
+// the guarded fmtbuf.Write* methods. Whether its own guard is reached may depend on the buffer the pooled
+// printer happens to carry, so every case is run on (a) fresh-or-whatever printers, (b) printers whose buffers
+// were grown by earlier, legal format calls of the same program under the same limit, (c) printers grown
+// under a larger limit earlier in the process (primeLen). A case is observable when the padding is the LAST
+// write of the call (left-justified fields, %x of an empty string, %.0d of 0): otherwise a later guarded
+// write reports the overflow anyway.
+
+type padOp struct {
+	name string
+	// build: the format call whose result would be T bytes long and its sequence of buffer writes
+	build func(T int) (call string, ops string, ok bool)
+}
+
+var padOps = []padOp{
+	{"%-Nd", func(T int) (string, string, bool) {
+		return fmt.Sprintf("format(\"%%-%dd\", 5)", T), fmt.Sprintf("(w 1) (p %d)", T-1), T >= 2
+	}},
+	{"%-Ns", func(T int) (string, string, bool) {
+		return fmt.Sprintf("format(\"%%-%ds\", \"ab\")", T), fmt.Sprintf("(w 2) (p %d)", T-2), T >= 3
+	}},
+	{"%-*s", func(T int) (string, string, bool) {
+		return fmt.Sprintf("format(\"%%-*s\", %d, \"ab\")", T), fmt.Sprintf("(w 2) (p %d)", T-2), T >= 3
+	}},
+	{"%*d negative width", func(T int) (string, string, bool) {
+		return fmt.Sprintf("format(\"%%*d\", -%d, 5)", T), fmt.Sprintf("(w 1) (p %d)", T-1), T >= 2
+	}},
+	{"%-0Nd", func(T int) (string, string, bool) {
+		return fmt.Sprintf("format(\"%%-0%dd\", -5)", T), fmt.Sprintf("(w 2) (p %d)", T-2), T >= 3
+	}},
+	{"%0-Nd", func(T int) (string, string, bool) {
+		return fmt.Sprintf("format(\"%%0-%dd\", 42)", T), fmt.Sprintf("(w 2) (p %d)", T-2), T >= 3
+	}},
+	{"%Nx empty string", func(T int) (string, string, bool) {
+		return fmt.Sprintf("format(\"%%%dx\", \"\")", T), fmt.Sprintf("(p %d)", T), T >= 1
+	}},
+	{"%0NX empty bytes", func(T int) (string, string, bool) {
+		return fmt.Sprintf("format(\"%%0%dX\", bytes(0))", T), fmt.Sprintf("(p %d)", T), T >= 1
+	}},
+	{"%N.0d zero", func(T int) (string, string, bool) {
+		return fmt.Sprintf("format(\"%%%d.0d\", 0)", T), fmt.Sprintf("(p %d)", T), T >= 1
+	}},
+	{"%*.*d zero", func(T int) (string, string, bool) {
+		return fmt.Sprintf("format(\"%%*.*d\", %d, 0, 0)", T), fmt.Sprintf("(p %d)", T), T >= 1
+	}},
+	{"%-Nx string", func(T int) (string, string, bool) {
+		return fmt.Sprintf("format(\"%%-%dx\", \"ab\")", T), fmt.Sprintf("(x 4) (p %d)", T-4), T >= 5
+	}},
+	{"%-Nv bool", func(T int) (string, string, bool) {
+		return fmt.Sprintf("format(\"%%-%dv\", true)", T), fmt.Sprintf("(w 4) (p %d)", T-4), T >= 5
+	}},
+	{"%-Nc", func(T int) (string, string, bool) {
+		return fmt.Sprintf("format(\"%%-%dc\", 122)", T), fmt.Sprintf("(w 1) (p %d)", T-1), T >= 2
+	}},
+	{"%-Nq", func(T int) (string, string, bool) {
+		return fmt.Sprintf("format(\"%%-%dq\", \"ab\")", T), fmt.Sprintf("(w 4) (p %d)", T-4), T >= 5
+	}},
+	{"%-N.1f", func(T int) (string, string, bool) {
+		return fmt.Sprintf("format(\"%%-%d.1f\", 2.5)", T), fmt.Sprintf("(w 3) (p %d)", T-3), T >= 4
+	}},
+	{"%-Nv array", func(T int) (string, string, bool) {
+		return fmt.Sprintf("format(\"%%-%dv\", [1, 2])", T), fmt.Sprintf("(w 6) (p %d)", T-6), T >= 7
+	}},
+	{"%-NU", func(T int) (string, string, bool) {
+		return fmt.Sprintf("format(\"%%-%dU\", 120)", T), fmt.Sprintf("(w 6) (p %d)", T-6), T >= 7
+	}},
+	{"%s%-Nd", func(T int) (string, string, bool) {
+		a := T / 2
+		return fmt.Sprintf("format(\"%%s%%-%dd\", %s, 5)", T-a, lit(a)), fmt.Sprintf("(w %d) (w 1) (p %d)", a, T-a-1), T-a >= 2
+	}},
+	{"literal then %-Ns", func(T int) (string, string, bool) {
+		return fmt.Sprintf("format(\"id=%%-%ds\", \"ab\")", T-3), fmt.Sprintf("(w 3) (w 2) (p %d)", T-5), T >= 6
+	}},
+	// controls: the padding is followed by a guarded write
+	{"%Nd (right-justified)", func(T int) (string, string, bool) {
+		return fmt.Sprintf("format(\"%%%dd\", 7)", T), fmt.Sprintf("(p %d) (w 1)", T-1), T >= 2
+	}},
+	{"%-Nd| (text after the field)", func(T int) (string, string, bool) {
+		return fmt.Sprintf("format(\"%%-%dd|\", 7)", T-1), fmt.Sprintf("(w 1) (p %d) (w 1)", T-2), T >= 3
+	}},
+}
+
+// genPadProg: one to three random format calls with flags, widths (literal and '*') and precisions around L.
+func genPadProg(r *lib.RNG, L int, pre string) string {
+	near := func() int {
+		switch r.Intn(5) {
+		case 0:
+			return r.Intn(4)
+		case 1:
+			return L - r.Intn(3)
+		case 2:
+			return L + 1 + r.Intn(3)
+		case 3:
+			return L + 1 + r.Intn(L+8)
+		}
+		return r.Intn(L + 1)
+	}
+	var sb strings.Builder
+	fmt.Fprintf(&sb, "s0 := %s\ns1 := \"\"\nb0 := bytes(%s)\nb1 := bytes(0)\narr := []\nm := {}\n", lit(r.Intn(L/2+1)), lit(r.Intn(L/2+1)))
+	sb.WriteString(pre)
+	verbs := "ddssvvqxxXXctfeUbogT"
+	args := []string{"s0", "s1", "b0", "b1", "0", "5", "-7", "122", "12345", "2.5", "0.0", "'z'", "true", "arr", "m", "undefined", "[s0]", "\"ab\"", "\"\""}
+	n := 1 + r.Intn(3)
+	for i := 0; i < n; i++ {
+		var f strings.Builder
+		var as []string
+		if r.Chance(1, 4) {
+			f.WriteString(lib.Pick(r, []string{"n=", "[", "ab", "%%"}))
+		}
+		k := 1
+		if r.Chance(1, 5) {
+			k = 2
+		}
+		for j := 0; j < k; j++ {
+			f.WriteByte('%')
+			if r.Chance(2, 3) {
+				f.WriteByte('-')
+			}
+			for _, fl := range "0+ #" {
+				if r.Chance(1, 5) {
+					f.WriteRune(fl)
+				}
+			}
+			switch r.Intn(6) {
+			case 0: // no width
+			case 1:
+				f.WriteByte('*')
+				w := near()
+				if r.Chance(1, 3) {
+					w = -w
+				}
+				as = append(as, lib.N(w))
+			default:
+				f.WriteString(lib.N(near()))
+			}
+			switch r.Intn(8) {
+			case 0:
+				f.WriteString(".0")
+			case 1:
+				f.WriteString("." + lib.N(r.Intn(4)))
+			case 2:
+				f.WriteString(".*")
+				as = append(as, lib.N(r.Intn(3)))
+			}
+			f.WriteByte(verbs[r.Intn(len(verbs))])
+			as = append(as, lib.Pick(r, args))
+		}
+		if r.Chance(1, 8) {
+			f.WriteString(lib.Pick(r, []string{"|", " ", "%%"}))
+		}
+		call := "format(" + strconv.Quote(f.String()) + ", " + strings.Join(as, ", ") + ")"
+		switch r.Intn(5) {
+		case 0:
+			fmt.Fprintf(&sb, "arr = append(arr, %s)\n", call)
+		case 1:
+			fmt.Fprintf(&sb, "m[%s] = %d\n", call, i)
+		default:
+			fmt.Fprintf(&sb, "v%d := %s\n", i, call)
+		}
+	}
+	return sb.String()
+}
+
+// pregrow: legal format calls (results of exactly L bytes) after which the buffer of the printer they used
+// has a capacity well above L when that printer was new (L > 8): the padding of the first call does not fit
+// the 8 bytes append reserved for "5", and writePadding then allocates 2*cap+n >= L+15 bytes. A printer that
+// comes from the pool keeps whatever larger capacity it has (capacities never shrink).
+func pregrow(L int) string {
+	return fmt.Sprintf("p0 := format(\"%%-%dd\", 5)\np1 := format(\"%%s\", %s)\n", L, lit(L))
+}
+
+// emptyPrinterPool: two collections drop everything a sync.Pool holds (primary and victim caches).
+func emptyPrinterPool() {
+	runtime.GC()
+	runtime.GC()
+}
+
+func padStream(r *lib.RNG) {
+	defer func(p int) { primeLen = p }(primeLen)
+	// in-program first, on an emptied pool: every printer made from here on is grown by the program that makes
+	// it, so no printer whose capacity is exactly L (left by an "as-is" run) can be handed to these programs
+	modes := []string{"in-program", "primed", "as-is"}
+	for _, L := range []int{8, 9, 16, 20, 64, 100} {
+		c := same(L)
+		for _, mode := range modes {
+			if mode != "primed" { // "as-is": new printers first, then whatever the earlier as-is cases left
+				emptyPrinterPool()
+			}
+			for _, op := range padOps {
+				for _, T := range []int{L - 1, L, L + 1, L + 2, L + 7, 2*L + 3} {
+					call, ops, ok := op.build(T)
+					if !ok {
+						continue
+					}
+					src, note := "x := "+call+"\n", op.name+", would-be length "+lib.N(T)
+					primeLen = 0
+					switch mode {
+					case "in-program":
+						src = pregrow(L) + src
+						note += "; printer buffers grown by the two earlier format calls of the program"
+					case "primed":
+						primeLen = 1024
+						note += "; printer buffers of capacity >= 1024 left in the pool by earlier format calls under a larger MaxStringLen"
+					}
+					in := input{Kind: "length", Source: src, MaxStr: c.maxStr, MaxBytes: c.maxBytes, Note: note}
+					o := runLen(src, c, "padding", note)
+					res.Count("padding", fmt.Sprint(op.name, L, T, mode), true)
+					var got string
+					switch {
+					case o.compileErr != nil:
+						got = "err " + isLimitErr(o.compileErr)
+					case o.run.timedOut:
+						continue
+					case o.run.failed():
+						got = "err " + isLimitErr(o.run.err)
+					default:
+						got = "ok " + lib.N(lengthOfX(o.run))
+					}
+					res.Dist("padding:" + mode + ":" + strings.Fields(got)[0])
+					if T > L && got != "err stringlimit" && strings.HasPrefix(got, "err") {
+						e := ""
+						if o.compileErr != nil {
+							e = o.compileErr.Error()
+						} else {
+							e = o.run.errText()
+						}
+						res.Violate(lib.Violation{Signature: "limit-failure-not-limit-error", Stream: "padding", Input: in, Observed: clip(e, 200),
+							Expected: "the format call fails with the limit error (errors.Is stringlimit)", Oracle: "errors.Is"})
+					}
+					if drv != nil {
+						m := ask(fmt.Sprintf("(bufseq %d %s)", L, ops))
+						if m != got {
+							res.Disagree(lib.Disagreement{Stream: "padding", Input: in, Model: m, Impl: got})
+						}
+					}
+				}
+			}
+		}
+	}
+	// random flag/width/precision/verb combinations
+	n := flags.Scale(150, 4000)
+	for _, L := range []int{8, 12, 16, 33, 64} {
+		c := same(L)
+		for i := 0; i < n; i++ {
+			rr := r.Fork()
+			pre, note := "", "random padded format calls"
+			primeLen = 0
+			switch rr.Intn(3) {
+			case 0:
+				if L <= 8 { // a new printer cannot be grown above 8 bytes under this limit
+					break
+				}
+				pre = pregrow(L)
+				note += "; printer buffers grown by the two earlier format calls of the program"
+			case 1:
+				primeLen = 1024
+				note += "; printer buffers of capacity >= 1024 left in the pool by earlier format calls under a larger MaxStringLen"
+			}
+			src := genPadProg(rr, L, pre)
+			o := runLen(src, c, "padding-gen", note)
+			nt := o.run != nil && !o.run.timedOut
+			res.Count("padding-gen", fmt.Sprint(L, primeLen, src), nt)
+			switch {
+			case o.compileErr != nil:
+				res.Dist("padding-gen:compile-" + isLimitErr(o.compileErr))
+			case o.run.failed():
+				res.Dist("padding-gen:run-err-" + isLimitErr(o.run.err))
+			default:
+				res.Dist("padding-gen:ok")
+			}
+			if i == 0 && L == 16 {
+				res.Sample(map[string]interface{}{"stream": "padding-gen", "max_string_len": L, "source": clip(src, 500)}, 8)
 			}
 		}
 	}
@@ -1111,7 +1435,14 @@ func replay(path string) {
 		case "budget":
 			checkBudgets(in.Source, "replay", -1, true, r)
 		case "length", "boundary":
+			primeLen = 0
+			if strings.Contains(in.Note, "printer buffers grown by") {
+				emptyPrinterPool()
+			} else {
+				primeLen = 1024
+			}
 			runLen(in.Source, cfg{in.MaxStr, in.MaxBytes}, "replay", in.Note)
+			primeLen = 0
 		default:
 			// depth / stack inputs are fixed programs: re-run the whole stream
 			depthStream(r)
@@ -1131,7 +1462,7 @@ func main() {
 	defer drv.Close()
 	res.DriverUsed = drv != nil
 	res.Rule = "budget: one program = one unlimited probed run + one run per budget; non-trivial = at least 2 tracked allocations and more than 10 dispatched instructions, distinct by source. " +
-		"length: one program under one (MaxStringLen, MaxBytesLen) pair; non-trivial = it compiled and ran to an outcome, distinct by (maxima, source). boundary/depth/stack: every listed case"
+		"length: one program under one (MaxStringLen, MaxBytesLen) pair; non-trivial = it compiled and ran to an outcome, distinct by (maxima, source). boundary/padding/depth/stack: every listed case (padding: per limit, operation, would-be length and printer-pool state); padding-gen as length"
 	if flags.Replay != "" {
 		replay(flags.Replay)
 		res.Write(flags.Out)
@@ -1163,8 +1494,14 @@ func main() {
 	for k, v := range siteSeen {
 		res.Distribution["alloc-site:"+k] += v
 	}
+	// boundary and length streams: every run starts with pre-grown pooled printer buffers (see primeLen), so
+	// that what they find does not depend on what earlier streams and the garbage collector left in the pool
+	primeLen = 1024
 	boundaryStream()
 	lengthStream(rng.Fork())
+	primeLen = 0
 	depthStream(rng.Fork())
+	// last: its random numbers come from a generator of their own, the streams above keep their inputs
+	padStream(lib.NewRNG(flags.Seed ^ 0x70616464))
 	res.Write(flags.Out)
 }
